@@ -13,6 +13,7 @@ import (
 	"context"
 	"crypto/hmac"
 	"crypto/sha256"
+	"encoding/base64"
 	"encoding/hex"
 	"encoding/json"
 	"errors"
@@ -51,13 +52,19 @@ const (
 	evRegister = 11 //         out-of-band registration of a new client (GenerateAnonymousCredentials)
 	evBadJSON  = 12 // k       handshake packet whose payload is not JSON
 	evDelAnon  = 13 // x       CloudControl.DeleteAnonymousClient (the anonymous service's own delete)
+	evCorrupt  = 14 // x kind  the stored credential (ClientConfig.SecretKeyEncrypted) of client x becomes unusable:
+	//                         0 "" (unmigrated legacy record) | 1 not base64 | 2 base64 but not decryptable |
+	//                         3 sealed under another master key | 4 base64 shorter than a nonce
 )
 
 // message fields of evMsg: [0, k, cid, new, key, chal, tunnel]
 //   cid    client index (1.. in order of creation), 0 = ClientID 0, 9000+ = an id nobody owns
 //   new    1: Token "new-client", 2: Token "anonymous:dev", 0: no token
 //   key    -1: no ChallengeResponse (phase 1); 0: garbage response; s>0: response keyed with secret number s
-//          (secrets are numbered in order of creation; -2: "current secret of client cid")
+//          (secrets are numbered in order of creation; -2: "current secret of client cid");
+//          HMACs over the same challenge with keys nobody proved anything with (garbage for the model):
+//          -3: keyed by "", -4: keyed by the stored SecretKeyEncrypted string of client cid, -5: keyed by the
+//          decimal client id, -6: keyed by the deprecated plaintext SecretKey field of client cid
 //   chal   0: the last challenge this connection received; c>0: challenge number c (numbered in order of issue);
 //          a challenge that does not exist (yet) makes the response garbage
 //   tunnel 1: connection_type "tunnel", 0: "control", 2: connection_type omitted
@@ -112,6 +119,7 @@ type hclient struct {
 	secret  int // number of its current secret
 	expired bool
 	deleted bool
+	broken  bool // its stored credential gives the server no usable secret (evCorrupt)
 	delAnon bool // deleted through the anonymous service
 }
 
@@ -155,6 +163,7 @@ type caseOut struct {
 
 var fx *server.VerifFixture
 var cfgRepo *repos.ClientConfigRepository
+var otherSKM *security.SecretKeyManager
 var caseSeq int
 
 func hm(secret, chal string) string {
@@ -351,7 +360,29 @@ func (w *world) msgStep(step int, op []int, o *stepObs, out *caseOut) {
 			if cn == 0 && c != nil {
 				cn = c.recv
 			}
-			if sn >= 1 && sn < len(w.secrets) && w.secrets[sn] != "" && cn >= 1 && cn < len(w.chals) {
+			if key <= -3 && cn >= 1 && cn < len(w.chals) {
+				ks := ""
+				if key != -3 && cidIdx >= 1 && cidIdx < len(w.clients) {
+					switch key {
+					case -4:
+						if c, err := cfgRepo.GetConfig(w.clients[cidIdx].id); err == nil && c != nil {
+							ks = c.SecretKeyEncrypted
+						}
+					case -5:
+						ks = fmt.Sprintf("%d", w.clients[cidIdx].id)
+					case -6:
+						if c, err := cfgRepo.GetConfig(w.clients[cidIdx].id); err == nil && c != nil {
+							ks = c.SecretKey
+						}
+					}
+				}
+				respStr = hm(ks, w.chals[cn])
+				for i := 1; i < len(w.secrets); i++ {
+					if w.secrets[i] != "" && w.secrets[i] == ks {
+						panic("harness: exotic HMAC key equals a real secret")
+					}
+				}
+			} else if sn >= 1 && sn < len(w.secrets) && w.secrets[sn] != "" && cn >= 1 && cn < len(w.chals) {
 				respStr = hm(w.secrets[sn], w.chals[cn])
 				o.Res = [2]int{sn, cn}
 			} else {
@@ -402,7 +433,8 @@ func (w *world) msgStep(step int, op []int, o *stepObs, out *caseOut) {
 			if req.ChallengeResponse != "" {
 				reachesVerification = true
 				cl := w.clients[x]
-				if c.live != "" && w.secrets[cl.secret] != "" && req.ChallengeResponse == hm(w.secrets[cl.secret], c.live) {
+				// a client whose stored credential is unusable has no secret anybody can have proved possession of
+				if !cl.broken && c.live != "" && w.secrets[cl.secret] != "" && req.ChallengeResponse == hm(w.secrets[cl.secret], c.live) {
 					proofFor = x
 				}
 			}
@@ -615,6 +647,39 @@ func (w *world) expire(x int) {
 	cl.expired = true
 }
 
+func (w *world) corrupt(x, kind int) {
+	cl := w.clients[x]
+	cfg, err := cfgRepo.GetConfig(cl.id)
+	if err != nil || cfg == nil {
+		return
+	}
+	switch kind {
+	case 0:
+		cfg.SecretKeyEncrypted = ""
+		cfg.SecretKey = "legacy-plaintext-" + fmt.Sprint(cl.id) // NeedsMigration() == true
+	case 1:
+		cfg.SecretKeyEncrypted = "@@ not base64 @@"
+	case 2:
+		b := make([]byte, 60)
+		for i := range b {
+			b[i] = byte(i*31 + x*7 + 5)
+		}
+		cfg.SecretKeyEncrypted = base64.StdEncoding.EncodeToString(b)
+	case 3:
+		plain := w.secrets[cl.secret]
+		if plain == "" {
+			plain = "some-secret"
+		}
+		enc, err := otherSKM.Encrypt(plain)
+		must(err)
+		cfg.SecretKeyEncrypted = enc
+	default:
+		cfg.SecretKeyEncrypted = "AAAA"
+	}
+	must(cfgRepo.UpdateConfig(cfg))
+	cl.broken = true
+}
+
 func runCase(raw json.RawMessage) interface{} {
 	var in caseIn
 	must(json.Unmarshal(raw, &in))
@@ -649,12 +714,17 @@ func runCase(raw json.RawMessage) interface{} {
 				w.clients[op[1]].deleted = true
 				w.clients[op[1]].delAnon = true
 			}
+		case evCorrupt:
+			if op[1] >= 1 && op[1] < len(w.clients) && !w.clients[op[1]].deleted {
+				w.corrupt(op[1], op[2])
+			}
 		case evRekey:
 			if op[1] >= 1 && op[1] < len(w.clients) && !w.clients[op[1]].deleted {
 				s, err := fx.Cloud.ResetClientCredentials(w.clients[op[1]].id)
 				must(err)
 				w.secrets = append(w.secrets, s)
 				w.clients[op[1]].secret = len(w.secrets) - 1
+				w.clients[op[1]].broken = false
 			}
 		case evRate:
 			if op[1] == 1 {
@@ -745,6 +815,12 @@ func main() {
 	fx, err = server.VerifNewFixture(ctx, memory.New(ctx), server.VerifFixtureOptions{})
 	must(err)
 	cfgRepo = repos.NewClientConfigRepository(fx.Repo)
+	ok := make([]byte, 32)
+	for i := range ok {
+		ok[i] = byte(200 - i*5)
+	}
+	otherSKM, err = security.NewSecretKeyManager(&security.SecretKeyConfig{MasterKey: base64.StdEncoding.EncodeToString(ok)})
+	must(err)
 	fx.RateLimiter.SetIPRateLimit(1000000, 1000000)
 	if len(os.Args) > 1 && os.Args[1] == "gen" {
 		gen()
